@@ -106,7 +106,7 @@ func processFile(path string, fm *fileModes) {
 		if fd.Recv != nil && len(fd.Recv.List) > 0 {
 			full = recvName(fd.Recv.List[0].Type) + "." + name
 		}
-		wantStmt := fm.stmt[name] || fm.stmt[full]
+		wantStmt := fm.stmt[name] || fm.stmt[full] || fm.stmt["*"]
 		if fm.mutex || wantStmt {
 			r.ctxExpr = ctxFor(fd)
 			if r.ctxExpr == "context.Background()" {
@@ -278,7 +278,8 @@ func (r *rewriter) stmtInner(s ast.Stmt, fn string) {
 	case *ast.ForStmt:
 		x.Body.List = r.stmtYields(x.Body.List, fn)
 	case *ast.RangeStmt:
-		x.Body.List = r.stmtYields(x.Body.List, fn)
+		// no yields inside range loops: over a map their order is not seedable, and the
+		// sequence of yield sites would then differ between runs of one seed.
 	case *ast.SwitchStmt:
 		for _, c := range x.Body.List {
 			cc := c.(*ast.CaseClause)
